@@ -136,7 +136,7 @@ SPEC = {
     "telegram": {
         "hosts": ["https://t.me", "telegram.me", "http://www.telegram.org", "https://web.t.me"],
         "deep": 1,
-        "voc": TG_ROUTES + ["katroulo", "76", "7a", "AAAAAE9B8u_wO9d4NiJp3w", "9" * 30, ""],
+        "voc": TG_ROUTES + ["katroulo", "76", "7a", "AAAAAE9B8u_wO9d4NiJp3w", "9" * 30, "", "1²", "①", "٧٦"],  # (str.isdigit() is wider than \d: superscripts, circled digits)
         "pruned": ["s", "joinchat", "katroulo", "76", "AAAAAE9B8u_wO9d4NiJp3w"],
         "qfull": _qcombos(["single", "embed=1", "start=x"]),
         "q": ["", "single"],
